@@ -69,6 +69,9 @@ class Term:
     def describe(self):
         return self.tokens()
 
+    def __repr__(self):
+        return '<' + self.tokens() + '>'
+
 
 def parse_term(tok, idx=0):
     w = tok.split()
@@ -329,6 +332,9 @@ def rnd_frac(rng, lo=-6, hi=6, dmax=4, nonzero=True):
             return x
 
 
+QUICK = [False]
+
+
 def gen_term(rng, idx, allow_adv=True, allow_trig=True):
     coef = rnd_frac(rng)
     p = rng.choice([0, 0, 0, 1, 1, 2, 3])
@@ -341,6 +347,8 @@ def gen_term(rng, idx, allow_adv=True, allow_trig=True):
     if kind == 'one':
         return Term(coef, p, a, 'one', idx=idx)
     if kind in ('gcos', 'gsin'):     # sinusoid gated by a delayed step: rule "multiplication with u(n - n0)"
+        if QUICK[0] and rng.random() < 0.6:
+            p = 0                    # n * a^n * gated sinusoid is the long tail of SymPy's simplification time
         return Term(coef, min(p, 1), a, kind, d=rng.choice([0, 1, 2, 2, 3, 4, -1]), bpair=rng.choice(PYTH), cpair=rng.choice(PYTH), idx=idx)
     return Term(coef, min(p, 1), a, kind, bpair=rng.choice(PYTH), cpair=rng.choice(PYTH), idx=idx)
 
@@ -395,7 +403,18 @@ def run(chk, replay=None):
                       helper_files=['Lcapy/Proofs/DT.lean', 'Lcapy/Proofs/DT2.lean', 'Lcapy/Model/DT.lean', 'Lcapy/Spec/DT.lean',
                                     'Lcapy/Driver/C13.lean', 'Lcapy/Model/CRat.lean', 'Lcapy/Generated/DTSeq.lean'],
                       leanchecker=(chk.tier == 'thorough'))
-    drv = chk.get_driver()
+    drv0 = chk.get_driver()
+
+    class SafeDrv:
+        """the per-case time limit (SIGALRM) must not interrupt a request/reply exchange with the driver"""
+        def ask1(self, line):
+            import signal
+            signal.pthread_sigmask(signal.SIG_BLOCK, {signal.SIGALRM})
+            try:
+                return drv0.ask1(line)
+            finally:
+                signal.pthread_sigmask(signal.SIG_UNBLOCK, {signal.SIGALRM})
+    drv = SafeDrv()
     Lc = L()
     S = Lc.S
     # branch-coverage instrument (from the outside: sys.monitoring LINE events on the anchored functions only)
@@ -415,6 +434,7 @@ def run(chk, replay=None):
         'zseq.py': (_zseq, {'ZDomainSequence'})})
     bcov.start()
     stream_t = {}
+    slow = []
     sub_t = {}
     tmark = [time.time(), 'setup']
 
@@ -430,9 +450,10 @@ def run(chk, replay=None):
     chk.coverage['lcapy_under_test'] = os.path.dirname(Lc.lcapy.__file__)
     rng = chk.rng
     quick = chk.tier == 'quick'
+    QUICK[0] = quick
     gen = replay is None                      # --replay <file>: only the recorded case is re-run
     NS = 12 if quick else 20                     # samples checked per sequence
-    budget = {'zt': 215 if quick else 2000, 'izt': 80 if quick else 800, 'resp': 120 if quick else 1200}
+    budget = {'zt': 240 if quick else 2000, 'izt': 80 if quick else 800, 'resp': 120 if quick else 1200}
     chk.coverage['rule'] = ('zt: a case = a sum of 1-3 terms coef*n^p*a^n*base (base: impulse/step with integer delay incl. advances, '
                             'constant, cos/sin(b n + c) with Pythagorean cos/sin values) compared at 2 (quick) / 4 (thorough) random rational z and '
                             'coefficient-wise for n <= %d, plus IZT(ZT) samples; izt/filt: a case = (b, a) with a from rational simple/repeated poles; '
@@ -455,6 +476,20 @@ def run(chk, replay=None):
 
     def newcase():
         state['case'] += 1
+
+    CASE_LIMIT = 45 if chk.tier == 'quick' else 150
+
+    def guarded(fn, *args, **kw):
+        """SymPy calls occasionally do not return: a case that exceeds the limit is counted, never reported"""
+        t0g = time.time()
+        try:
+            with common.time_limit(CASE_LIMIT):
+                fn(*args, **kw)
+        except common.TimeLimit:
+            chk.count('degenerate', 'case-timeout:' + fn.__name__)
+        dtg = time.time() - t0g
+        if dtg > 2.0:
+            slow.append((round(dtg, 1), fn.__name__, ' '.join(str(a_)[:90] for a_ in args)[:200]))
 
     # ------------------------------------------------------------------ zt stream
     def zt_case(terms, origin):
@@ -530,7 +565,7 @@ def run(chk, replay=None):
                 'unilateral z-transform closed form does not expand to the sequence')
             return
         # -- oracle 2: IZT(ZT(x))[n] = x[n], n = 0..NS
-        if rng.random() < (0.4 if quick else 0.7):
+        if rng.random() < (0.33 if quick else 0.7):
             t0_ = time.time()
             nsamp = NS if not (trig and quick) else 6        # sinusoid samples are the expensive ones to certify rational
             try:
@@ -556,8 +591,9 @@ def run(chk, replay=None):
     stream('zt')
     for i in (range(budget['zt']) if (gen and cur[0]) else []):
         mode = i % 5
-        terms = gen_sig(rng, allow_adv=(mode == 4), allow_trig=(mode in (2, 3)), maxterms=(1 if mode in (0, 4) else 3))
-        zt_case(terms, 'generated')
+        # quick: sums with sinusoids are limited to two terms (SymPy's simplification of three is the long tail of the run time)
+        terms = gen_sig(rng, allow_adv=(mode == 4), allow_trig=(mode in (2, 3)), maxterms=(1 if mode in (0, 4) else (2 if quick and mode in (2, 3) else 3)))
+        guarded(zt_case, terms, 'generated')
 
     # ------------------------------------------------------------------ izt / filter stream
     def izt_case(b, a, poles, zform=None):
@@ -639,7 +675,7 @@ def run(chk, replay=None):
     stream('izt')
     for i in (range(budget['izt']) if (gen and cur[0]) else []):
         b, a, poles = gen_ba(rng, maxpoles=(2 if quick else 3))
-        izt_case(b, a, poles)
+        guarded(izt_case, b, a, poles)
     # directed family: H = c z**m / (z - p)**k, i.e. B = c w**j, A = (1 - p w)**k -- the shape of the
     # "1/(z**m (z - 1)) -> u[n - m]" shortcut of InverseZTransformer.ratfun, simple AND repeated pole, p = 1 and p != 1
     if gen and cur[0]:
@@ -648,7 +684,7 @@ def run(chk, replay=None):
                 for pole in (Fraction(1), rnd_frac(rng, -3, 3, 3)):
                     c = rng.choice([Fraction(1), rnd_frac(rng)])
                     chk.count('izt.directed', 'p=%s k=%d' % ('1' if pole == 1 else 'other', kpow))
-                    izt_case([Fraction(0)] * j + [c], poly_from_roots([pole] * kpow), [pole] * kpow, zform=(c, kpow - j, pole, kpow))
+                    guarded(izt_case, [Fraction(0)] * j + [c], poly_from_roots([pole] * kpow), [pole] * kpow, zform=(c, kpow - j, pole, kpow))
 
     # ------------------------------------------------------------------ response stream
     def resp_case(b, a, ic, xspec, n1):
@@ -714,7 +750,7 @@ def run(chk, replay=None):
             xs = ('sig', gen_sig(rng, allow_adv=True, allow_trig=False, maxterms=2))
         else:
             xs = ('lit', rng.choice([0, 0, -1, -2, 1, 2]), [rnd_frac(rng, -5, 5, 2, nonzero=False) for _ in range(rng.randint(1, 5))])
-        resp_case(b, a, ic, xs, rng.randint(3, 7 if quick else 12))
+        guarded(resp_case, b, a, ic, xs, rng.randint(3, 7 if quick else 12))
 
     # malformed stream: wrong number of initial conditions must be refused
     for i in (range(4 if quick else 20) if (gen and cur[0]) else []):
@@ -774,7 +810,7 @@ def run(chk, replay=None):
         b = [rnd_frac(rng, -4, 4, 3, nonzero=False) for _ in range(nb)]
         ic = [rnd_frac(rng, -5, 5, 2, nonzero=False) for _ in range(na - 1)]
         xic = [rnd_frac(rng, -5, 5, 2, nonzero=False) for _ in range(na - 1)]
-        ini_case(b, a, ic, xic)
+        guarded(ini_case, b, a, ic, xic)
 
     # ------------------------------------------------------------------ Sequence.lfilter / convolve stream
     def seqv(vals, n0):
@@ -859,12 +895,12 @@ def run(chk, replay=None):
             hv = hv + [Fraction(0)]
         if i % 4 == 3:
             xv = [Fraction(0)] + xv + [Fraction(0)]
-        conv_case(xv, rng.randint(-2, 2), hv, rng.randint(-2, 2))
+        guarded(conv_case, xv, rng.randint(-2, 2), hv, rng.randint(-2, 2))
     for i in (range(60 if quick else 600) if (gen and cur[0]) else []):
         b = [rnd_frac(rng, -3, 3, 2) for _ in range(rng.randint(1, 3))]
         a = [rnd_frac(rng, -3, 3, 2)] + ([rnd_frac(rng, -3, 3, 2) for _ in range(rng.randint(1, 2))] if i % 2 else [])
         xv = [rnd_frac(rng, -4, 4, 2) for _ in range(rng.randint(1, 5))] + [Fraction(0)] * (0 if i % 3 == 0 else 3)
-        lfilter_case(b, a, xv)
+        guarded(lfilter_case, b, a, xv)
 
     # ------------------------------------------------------------------ DFT stream
     def fterm_tokens(t, aval=None):
@@ -993,7 +1029,7 @@ def run(chk, replay=None):
                 terms, bins = [half, Term(t.coef / 2, 0, Fraction(1), 'one')], [m, N - m]
         if mode == 3:                  # geometric base on the unit circle (a = -1)
             terms[0].a = Fraction(-1)
-        dft_case(terms, N, symbolic, bins)
+        guarded(dft_case, terms, N, symbolic, bins)
 
     # ------------------------------------------------------------------ DTFT stream
     # x[n] = sum of  coef * n^p * a^n * gate[n] * trig(pi rb n + pi rc)  with gate = delta[n-d] (finite support: the
@@ -1110,14 +1146,9 @@ def run(chk, replay=None):
         chk.count('dft.directed', fam + (' [symbolic N]' if symbolic else '') + (' [piecewise]' if piecewise else ''))
         before = bcov.snapshot()
         try:
-            with common.time_limit(40):
-                xe = Lc.lcapy.nexpr(e)
-                X = xe.DFT(piecewise=piecewise) if symbolic else xe.DFT(N=N, piecewise=piecewise)
-                Xs = X.sympy
-        except common.TimeLimit:
-            chk.count('degenerate', 'dft-directed-timeout')
-            chk.case(key, False)
-            return
+            xe = Lc.lcapy.nexpr(e)
+            X = xe.DFT(piecewise=piecewise) if symbolic else xe.DFT(N=N, piecewise=piecewise)
+            Xs = X.sympy
         except Exception as ex:   # noqa
             chk.count('dft.lcapy-error', fam + ':' + type(ex).__name__)
             chk.case(key, False)
@@ -1164,12 +1195,8 @@ def run(chk, replay=None):
                 return
         if roundtrip and not symbolic:
             try:
-                with common.time_limit(40):
-                    xr = X.IDFT(N=N).sympy
+                xr = X.IDFT(N=N).sympy
                 got = [FpEval(Lc, {Lc.n: S.Integer(i)}).ev(xr) for i in range(N)]
-            except common.TimeLimit:
-                chk.count('degenerate', 'idft-directed-timeout')
-                return
             except Exception as ex:   # noqa
                 chk.count('degenerate', 'idft-unevaluable:' + type(ex).__name__)
                 return
@@ -1189,12 +1216,7 @@ def run(chk, replay=None):
         chk.count('idft.directed', fam)
         before = bcov.snapshot()
         try:
-            with common.time_limit(60):
-                xs = Lc.lcapy.kexpr(Xe).IDFT(N=N).sympy
-        except common.TimeLimit:
-            chk.count('degenerate', 'idft-directed-timeout')
-            chk.case(key, False)
-            return
+            xs = Lc.lcapy.kexpr(Xe).IDFT(N=N).sympy
         except Exception as ex:   # noqa
             chk.count('idft.lcapy-error', fam + ':' + type(ex).__name__)
             chk.case(key, False)
@@ -1238,61 +1260,61 @@ def run(chk, replay=None):
         # D1 rect windows: inside / cut left / cut right / cut both / outside
         for (c, b, N) in pick([(3, 4, 8), (3, 3, 8), (0, 4, 8), (1, 5, 6), (6, 4, 7), (7, 5, 8), (3, 12, 6), (12, 3, 8), (-5, 3, 8)], 5):
             w8 = rng.choice([S.Integer(1), n_, R(Fraction(1, 2)) ** n_, n_ ** 2])
-            dft_generic_case(R(rnd_frac(rng)) * w8 * dtrect((n_ - c) / S.Integer(b)), N, False, 'rect', roundtrip=(w8 == 1))
+            guarded(dft_generic_case, R(rnd_frac(rng)) * w8 * dtrect((n_ - c) / S.Integer(b)), N, False, 'rect', roundtrip=(w8 == 1))
         # D2 time-reversed steps u(n0 - n); D3 advanced steps u(n + m)
         for (n0, N) in pick([(3, 8), (0, 6), (9, 6), (-2, 6), (5, 6)], 3):
             w8 = rng.choice([S.Integer(1), n_, R(Fraction(-2, 3)) ** n_])
-            dft_generic_case(R(rnd_frac(rng)) * w8 * Lc.US(n0 - n_), N, False, 'reversed-step')
+            guarded(dft_generic_case, R(rnd_frac(rng)) * w8 * Lc.US(n0 - n_), N, False, 'reversed-step')
         for (m, N) in pick([(2, 6), (1, 5), (3, 8)], 2):
             w8 = rng.choice([S.Integer(1), n_, R(Fraction(1, 3)) ** n_])
-            dft_generic_case(R(rnd_frac(rng)) * w8 * Lc.US(n_ + m), N, False, 'advanced-step')
-            dft_generic_case(w8 * Lc.US(n_ + m), N, True, 'advanced-step')
+            guarded(dft_generic_case, R(rnd_frac(rng)) * w8 * Lc.US(n_ + m), N, False, 'advanced-step')
+            guarded(dft_generic_case, w8 * Lc.US(n_ + m), N, True, 'advanced-step')
         # D4 complex exponentials: bin frequency (negative and positive bins, with phase) and off-bin frequency
         for (m, N) in pick([(-1, 6), (2, 8), (-3, 8), (5, 6), (1, 4)], 3):
             base = rng.choice([S.Integer(1), Lc.US(n_ - 2), n_, R(Fraction(1, 2)) ** n_, n_ * Lc.US(n_ - 1)])
-            dft_generic_case(R(rnd_frac(rng)) * S.exp(I_ * 2 * pi_ * m * n_ / N + I_ * pi_ / 3) * base, N, False, 'exp-bin')
+            guarded(dft_generic_case, R(rnd_frac(rng)) * S.exp(I_ * 2 * pi_ * m * n_ / N + I_ * pi_ / 3) * base, N, False, 'exp-bin')
         for (r, N) in pick([(Fraction(1, 3), 8), (Fraction(1, 2), 6), (Fraction(-1, 4), 6), (Fraction(2, 3), 4)], 2):
             base = rng.choice([S.Integer(1), Lc.US(n_ - 1), n_])
-            dft_generic_case(S.exp(I_ * pi_ * R(r) * n_) * base, N, False, 'exp-offbin')
-        dft_generic_case(S.exp(I_ * 2 * pi_ * 2 * n_ / Nsym), 8, True, 'exp-bin')
+            guarded(dft_generic_case, S.exp(I_ * pi_ * R(r) * n_) * base, N, False, 'exp-offbin')
+        guarded(dft_generic_case, S.exp(I_ * 2 * pi_ * 2 * n_ / Nsym), 8, True, 'exp-bin')
         # D5 sinusoids with phase: bin and off-bin
         for (r, sft, N) in pick([(Fraction(1, 2), Fraction(1, 3), 8), (Fraction(1, 3), Fraction(0), 6), (Fraction(2, 3), Fraction(1, 4), 6),
                                  (Fraction(1, 3), Fraction(1, 6), 8), (Fraction(1, 4), Fraction(1, 3), 6), (Fraction(1, 2), Fraction(0), 6)], 4):
             base = rng.choice([S.Integer(1), Lc.US(n_ - 2), n_, R(Fraction(1, 2)) ** n_])
             f = rng.choice([S.sin, S.cos])
             fam = 'sinusoid-' + ('bin' if (r * N / 2).denominator == 1 else 'offbin')
-            dft_generic_case(R(rnd_frac(rng)) * f(pi_ * R(r) * n_ + pi_ * R(sft)) * base, N, False, fam)
-        dft_generic_case(S.cos(2 * pi_ * 3 * n_ / Nsym + pi_ / 4), 9, True, 'sinusoid-bin')
+            guarded(dft_generic_case, R(rnd_frac(rng)) * f(pi_ * R(r) * n_ + pi_ * R(sft)) * base, N, False, fam)
+        guarded(dft_generic_case, S.cos(2 * pi_ * 3 * n_ / Nsym + pi_ / 4), 9, True, 'sinusoid-bin')
         # D7 higher polynomial weights (generated A_l, B_u polynomials)
         for (pw, d, N) in pick([(4, 0, 6), (4, 2, 7), (5, 1, 6), (6, 0, 5)], 2):
-            dft_generic_case(n_ ** pw * (Lc.US(n_ - d) if d else 1), N, False, 'n^p p>=4', flags={'ramp_step_delay_ge2': d >= 2})
-        dft_generic_case(n_ ** 4, 7, True, 'n^p p>=4')
+            guarded(dft_generic_case, n_ ** pw * (Lc.US(n_ - d) if d else 1), N, False, 'n^p p>=4', flags={'ramp_step_delay_ge2': d >= 2})
+        guarded(dft_generic_case, n_ ** 4, 7, True, 'n^p p>=4')
         # D8 impulses: at N - 1 for symbolic N, weighted by n, outside the window
-        dft_generic_case(3 * Lc.UI(n_ - Nsym + 1), 9, True, 'impulse at N-1')
-        dft_generic_case(n_ * Lc.UI(n_ - Nsym + 2), 10, True, 'impulse at N-1', flags={'impulse_index_wrapped': True})
-        dft_generic_case(R(Fraction(1, 2)) ** n_ * Lc.UI(n_ - Nsym + 1), 7, True, 'impulse at N-1', flags={'impulse_index_wrapped': True})
+        guarded(dft_generic_case, 3 * Lc.UI(n_ - Nsym + 1), 9, True, 'impulse at N-1')
+        guarded(dft_generic_case, n_ * Lc.UI(n_ - Nsym + 2), 10, True, 'impulse at N-1', flags={'impulse_index_wrapped': True})
+        guarded(dft_generic_case, R(Fraction(1, 2)) ** n_ * Lc.UI(n_ - Nsym + 1), 7, True, 'impulse at N-1', flags={'impulse_index_wrapped': True})
         for d in pick([-1, 7, 9], 2):
-            dft_generic_case(2 * Lc.UI(n_ - d), 6, False, 'impulse outside')
+            guarded(dft_generic_case, 2 * Lc.UI(n_ - d), 6, False, 'impulse outside')
         # D9 piecewise=True output
         for e_ in pick([S.Integer(2), n_, n_ * Lc.US(n_ - 2), S.exp(I_ * 2 * pi_ * n_ / 6) * n_], 2):
-            dft_generic_case(e_, 6, False, 'piecewise', piecewise=True, flags={'ramp_step_delay_ge2': e_.has(Lc.US)})
+            guarded(dft_generic_case, e_, 6, False, 'piecewise', piecewise=True, flags={'ramp_step_delay_ge2': e_.has(Lc.US)})
         # D10 forward termXk: x[n] a rational function of exp(j 2 pi n / N)
         for (a_, pw, N) in pick([(Fraction(1, 2), 1, 6), (Fraction(-2, 3), 2, 5), (Fraction(1, 3), 3, 4), (Fraction(3, 2), 1, 8)], 2):
-            dft_generic_case(1 / (1 - R(a_) * S.exp(I_ * 2 * pi_ * n_ / N)) ** pw, N, False, 'termXk forward', roundtrip=False)
+            guarded(dft_generic_case, 1 / (1 - R(a_) * S.exp(I_ * 2 * pi_ * n_ / N)) ** pw, N, False, 'termXk forward', roundtrip=False)
         # D11 no rule matches: sympy summation fallback
-        dft_generic_case(1 / (n_ + 1), 4, False, 'fallback summation', roundtrip=False)
+        guarded(dft_generic_case, 1 / (n_ + 1), 4, False, 'fallback summation', roundtrip=False)
         # D12 geometric base that is an N-th root of unity (finding F20)
         for (e_, N) in pick([((-1) ** n_, 4), (n_ * (-1) ** n_, 6), (S.I ** n_, 8), ((-1) ** n_ * Lc.US(n_ - 1), 6), ((-1) ** n_, 5)], 3):
-            dft_generic_case(e_, N, False, 'root-of-unity base', flags={'geo_base_is_root_of_unity': N % 2 == 0}, roundtrip=False)
+            guarded(dft_generic_case, e_, N, False, 'root-of-unity base', flags={'geo_base_is_root_of_unity': N % 2 == 0}, roundtrip=False)
         # I1 IDFT of rational functions of exp(-j 2 pi k / N): simple and repeated poles off the unit circle (termXk, first case)
         for (a_, pw, N) in pick([(Fraction(1, 2), 1, 6), (Fraction(-1, 3), 2, 5), (Fraction(2, 3), 3, 6), (Fraction(1, 2), 4, 4), (Fraction(-1, 2), 5, 4),
                                  (Fraction(1, 3), 6, 3)], 3 if quick else 6):
             q_ = S.exp(-I_ * 2 * pi_ * Lc.k / N)
             num = rng.choice([S.Integer(1), q_, 1 + 2 * q_]) if pw > 1 else S.Integer(1)
-            idft_generic_case(num / (1 - R(a_) * q_) ** pw, N, 'ratfun pole order %d' % pw)
+            guarded(idft_generic_case, num / (1 - R(a_) * q_) ** pw, N, 'ratfun pole order %d' % pw)
         # I2 round trips through the second case of termXk (pole on the unit circle, (1 - delta) factor), all table orders
         for (pw, d, N) in pick([(1, 0, 6), (1, 2, 6), (2, 0, 5), (2, 3, 7), (3, 0, 6), (3, 2, 5), (4, 0, 5), (5, 0, 4)], 4):
-            dft_generic_case(n_ ** pw * (Lc.US(n_ - d) if d else 1), N, False, 'n^p roundtrip', flags={'ramp_step_delay_ge2': d >= 2})
+            guarded(dft_generic_case, n_ ** pw * (Lc.US(n_ - d) if d else 1), N, False, 'n^p roundtrip', flags={'ramp_step_delay_ge2': d >= 2})
 
     stream('dtft')
     for i in (range(40 if quick else 400) if (gen and cur[0]) else []):
@@ -1307,7 +1329,7 @@ def run(chk, replay=None):
             else:                # causal geometric, |a| < 1
                 a = Fraction(rng.choice([1, -1, 2, -2]), rng.choice([3, 4, 5]))
                 terms.append((rnd_frac(rng), rng.choice([0, 0, 1]), a, 'step', rng.randint(0, 3), trig, rb, rc))
-        dtft_case(terms)
+        guarded(dtft_case, terms)
 
 
     # ------------------------------------------------------------------ sequences with an origin (nseq.ZT/DFT, zseq.IZT)
@@ -1387,9 +1409,9 @@ def run(chk, replay=None):
                     'sequence IDFT(DFT(x)) does not return the sequence')
 
     stream('seqorg')
-    for i in (range(24 if quick else 240) if (gen and cur[0]) else []):
+    for i in (range(32 if quick else 240) if (gen and cur[0]) else []):
         vals = [rnd_frac(rng, -4, 4, 2, nonzero=(j == 0)) for j in range(rng.randint(1, 5))]
-        seqorg_case(vals, [0, 0, 1, 2, 3, -1, -2, rng.randint(-4, 4)][i % 8])
+        guarded(seqorg_case, vals, [0, 0, 1, 2, 3, -1, -2, rng.randint(-4, 4)][i % 8])
 
     # ------------------------------------------------------------------ DTFT rule cascade (model of DTFTTransformer.term), incl. combs
     DANG = [Fraction(1, 3), Fraction(1, 2), Fraction(2, 3), Fraction(1, 4), Fraction(1, 6), Fraction(3, 4)]
@@ -1513,7 +1535,7 @@ def run(chk, replay=None):
                     return
 
     stream('dtft2')
-    for i in (range(36 if quick else 360) if (gen and cur[0]) else []):
+    for i in (range(48 if quick else 360) if (gen and cur[0]) else []):
         nt = 1 if i % 3 else 2
         terms = []
         for _ in range(nt):
@@ -1527,7 +1549,7 @@ def run(chk, replay=None):
                 terms.append((rnd_frac(rng), rng.choice([0, 0, 1, 2]), a, 'step', rng.randint(-2, 3), trig, rb, rc))
             else:                  # not summable: plain / modulated steps -> Dirac combs (formal pairs)
                 terms.append((rnd_frac(rng), 0, Fraction(1), 'step', rng.randint(-2, 3), trig, rb, rc))
-        dtft2_case(terms)
+        guarded(dtft2_case, terms)
 
     # ------------------------------------------------------------------ discretize (sexpr.py): substitutions s = f(z)
     from lcapy.sym import dt as dtsym, ssym
@@ -1602,17 +1624,18 @@ def run(chk, replay=None):
 
     stream('disc')
     METHODS = ['bilinear', 'forward-euler', 'backward-euler', 'gbf', 'simpson', 'tustin', 'euler', 'backward-diff']
-    for i in (range(16 if quick else 160) if (gen and cur[0]) else []):
+    for i in (range(24 if quick else 160) if (gen and cur[0]) else []):
         nn, nd = rng.randint(1, 3), rng.randint(2, 4)
         num = [rnd_frac(rng, -4, 4, 3, nonzero=(j == 0)) for j in range(nn)]
         den = [rnd_frac(rng, -4, 4, 3, nonzero=(j == nd - 1)) for j in range(nd)]
-        disc_case(num, den, METHODS[i % len(METHODS)], Fraction(rng.randint(0, 4), 4))
+        guarded(disc_case, num, den, METHODS[i % len(METHODS)], Fraction(rng.randint(0, 4), 4))
     for i in (range(6 if quick else 40) if (gen and cur[0]) else []):
-        ii_case(rnd_frac(rng), rng.choice([-3, -2, -1, 1, 2]), ['impulse-invariance', 'matched-Z'][i % 2])
+        guarded(ii_case, rnd_frac(rng), rng.choice([-3, -2, -1, 1, 2]), ['impulse-invariance', 'matched-Z'][i % 2])
 
     stream('end')
     bcov.stop()
     chk.coverage['stream_seconds'] = stream_t
+    chk.coverage['slowest_cases'] = sorted(slow, reverse=True)[:12]
     chk.coverage['stream_seconds_detail'] = {k_: round(v_, 1) for k_, v_ in sub_t.items()}
     bt = bcov.table()
     # keep the evidence compact: per-file summary, the unreached list, and the full rows of the DFT/DTFT case analyses
